@@ -169,9 +169,15 @@ impl SamplerClamp {
         tc: TexCoord,
     ) -> C {
         use crate::math::float::f32;
-        let u = f32::floor(tc.u().clamp(0.0, tex.w - 1.0)) as u32;
-        let v = f32::floor(tc.v().clamp(0.0, tex.h - 1.0)) as u32;
-        tex.data.as_slice2()[[u, v]]
+        let data = tex.data.as_slice2();
+        // Clamp the upper end in integers: the float dimensions of `tex`
+        // cannot represent every size above 2^24, and neither can a float
+        // coordinate. The cast saturates (and maps NaN to 0)
+        let u = f32::floor(tc.u().max(0.0)) as u32;
+        let v = f32::floor(tc.v().max(0.0)) as u32;
+        let u = u.min(data.width().saturating_sub(1));
+        let v = v.min(data.height().saturating_sub(1));
+        data[[u, v]]
     }
 }
 
